@@ -96,6 +96,8 @@ fn corpus(large_n: usize) -> Vec<(String, String, &'static str)> {
         ("rxmatch.html", "{{ email is matching(pat=pat) }}{{ email is matching(pat=\"^b\") }}{{ a | striptags }}|{{ a | spaceless }}|{{ email | regex_replace(pattern=\"o\", rep=\"0\") }}".into(), "tera-contrib matching (its own cache), striptags, spaceless (lazily built statics)"),
         ("rand.html", "{{ get_random(start=0, end=1000000, seed=\"s\") }}|{{ get_random(start=0, end=1000000, seed=a) }}|{{ xs | shuffle(seed=\"s\") }}|{{ [1, 2, 3, 4, 5, 6] | shuffle(seed=b) }}|{{ get_random(start=0, end=1000000, seed=\"s\") }}".into(), "tera-contrib get_random / shuffle WITH a seed (reproducible by documentation): the same seed twice in one render and again in the next (seeded change C18-11 kept the last seeded generator in a thread-local)"),
         ("fmt.html", "{{ 123456789 | filesize_format }}|{{ 123456789 | filesize_format(binary=false) }}|{{ 42 | format(spec=\"05\") }}|{{ a | format(spec=\">8\") }}|{{ 3.14159 | format(spec=\".2\") }}".into(), "tera-contrib filesize_format and format"),
+        ("blob.txt", "{{ blob() }}|{{ true and blob() }}|{% set c %}{{ blob() }}{% endset %}{{ c }}".into(), "a host function returning bytes that are not UTF-8, printed unescaped through WriteTop, at top level and in a capture (seeded change C18-14 wrote them raw in the writer channel only)"),
+        ("blob.html", "{{ blob() }}|{{ blob() | safe }}".into(), "the same bytes through the escaper"),
         ("rxbad.html", "x{{ email | regex_replace(pattern=\"(\", rep=\"y\") }}".into(), "tera-contrib regex_replace with an invalid pattern: an error every time"),
         ("custom.html", "{{ b | shout }}{{ peek() }}{% if a is longer_than_b %}L{% else %}S{% endif %}{% block c %}[{{ a | shout }}{{ peek() }}]{% endblock %}{{ <yell label={b} /> }}".into(), "user filter / function / test that call back into the engine through State (call_filter, get), at top level, in a block, in a component"),
         ("customchild.html", "{% extends \"custom.html\" %}{% block c %}({{ super() }}{{ b | shout }}){% endblock %}".into(), "the same through super() and a child block"),
@@ -286,7 +288,13 @@ fn longer_than_b(val: &str, _: tera::Kwargs, state: &tera::State) -> tera::TeraR
     Ok(val.len() > b.map(|s| s.len()).unwrap_or(0))
 }
 
+/// A host function whose result is a bytes value that is not valid UTF-8.
+fn blob(_: tera::Kwargs, _: &tera::State) -> tera::TeraResult<tera::Value> {
+    Ok(tera::Value::bytes(vec![0xff, b'a', 0xfe, b'<']))
+}
+
 fn register_contrib(t: &mut Tera) {
+    t.register_function("blob", blob);
     t.register_filter("shout", shout);
     t.register_function("peek", peek);
     t.register_test("longer_than_b", longer_than_b);
